@@ -265,6 +265,19 @@ class Case:
             ops += lines
             ops.append(self.insert_line(nk))
             self.count("cbop:reuse_slot")
+        others = [j for j in self.inserted if j != k]
+        if others and r.random() < self.p.get("meddle", 0.12):
+            # interfere with a batch-mate: another source that may have an event in the batch being processed
+            j = r.choice(others)
+            seq = r.choice([["disable %d", "update %d"], ["disable %d", "enable %d"], ["disable %d"], ["remove %d"],
+                            ["update %d", "disable %d"], ["disable %d", "update %d", "enable %d"], ["disable %d", "disable %d"]])
+            for o in seq:
+                ops.append(o % j)
+            if seq[-1].startswith("disable") or (len(seq) > 1 and seq[0].startswith("disable") and not seq[-1].startswith("enable")):
+                self.enabled.discard(j)
+            if seq[0].startswith("remove"):
+                self.inserted.discard(j); self.enabled.discard(j); self.removed.add(j)
+            self.count("cbop:meddle")
         for _ in range(n):
             x = r.random()
             op = None
@@ -318,6 +331,12 @@ class Case:
             if self.p.get("misc_idle") and r.random() < 0.22:
                 op = self.idle_op(True)
             elif since_dispatch > 3 and r.random() < 0.6 or x < 0.22:
+                # several sources ready in the same batch, more often than chance would have it
+                if r.random() < self.p.get("crowd", 0.35):
+                    for _ in range(r.randrange(1, 4)):
+                        c = self.cause_op()
+                        if c:
+                            self.emit(c)
                 op = "dispatch"
             elif x < 0.5:
                 op = self.cause_op()
